@@ -5,7 +5,9 @@ package executor
 import (
 	"github.com/ChainSafe/sygma-relayer/chains/btc/config"
 	"github.com/ChainSafe/sygma-relayer/chains/btc/mempool"
+	"github.com/ChainSafe/sygma-relayer/store"
 	"github.com/btcsuite/btcd/wire"
+	"github.com/sygmaprotocol/sygma-core/relayer/proposal"
 )
 
 // VerifC16RawTx calls the unexported rawTx.
@@ -16,4 +18,14 @@ func (e *Executor) VerifC16RawTx(props []*BtcTransferProposal, resource config.R
 // VerifC16Fee calls the unexported fee.
 func (e *Executor) VerifC16Fee(numOfInputs, numOfOutputs uint64) (uint64, error) {
 	return e.fee(numOfInputs, numOfOutputs)
+}
+
+// VerifC16ProposalsForExecution calls the unexported proposalsForExecution (which proposals of a batch get executed).
+func (e *Executor) VerifC16ProposalsForExecution(ps []*proposal.Proposal, messageID string) ([]*BtcTransferProposal, error) {
+	return e.proposalsForExecution(ps, messageID)
+}
+
+// VerifC16StoreProposalsStatus calls the unexported storeProposalsStatus (what watchExecution records after sending).
+func (e *Executor) VerifC16StoreProposalsStatus(ps []*BtcTransferProposal, st store.PropStatus) {
+	e.storeProposalsStatus(ps, st)
 }
